@@ -253,6 +253,7 @@ Record case := {
   k_pods : list ipod;
   k_impl : list cpolicy;                        (* the real converted model.Policy of each policy *)
   k_impl_clean : bool;                          (* every rule field outside `crule` was zero, keys as expected *)
+  k_infer : bool;                               (* which variant of the policyTypes inference the tree has (probed) *)
   k_conns : list (endp * endp * N * N)
 }.
 
@@ -283,7 +284,7 @@ Definition impl_party (c : case) (e : endp) : cparty :=
 
 (* model of the conversions == what the real code produced *)
 Definition agree (c : case) : bool :=
-  list_eqb cpolicy_eqb (map conv_np (k_nps c)) (k_impl c)
+  list_eqb cpolicy_eqb (map (conv_np_v (k_infer c)) (k_nps c)) (k_impl c)
   && forallb (fun ip =>
         let p := ip_pod ip in
         labels_eqb (canon_labels (wep_labels (pod_ns p) (pod_sa p) (pod_labels p))) (ip_impl_labels ip)
